@@ -4,7 +4,7 @@ CONSTANTS
   MaxLen = 2
   KeyWithoutType = TRUE
   FirstIndexOnly = FALSE
-  NameSet = {"X", "Y", "Z", "W", "Q", "K", "Name", "PName", "AName", "ARename", "hidden", "nosuch", "x", "name", "Cust", "V", "U"}
+  NameSet = {"X", "Y", "Z", "W", "Q", "K", "Name", "PName", "AName", "ARename", "hidden", "nosuch", "x", "name", "Cust", "V", "U", "Uelan", "uelan"}
 INVARIANTS
   CacheUnobservable
   Bounded
